@@ -28,7 +28,7 @@ def required(tier):
     b = {f'route:{r}': 3 for r in ROUTES}
     b.update({f'units:{u}': 3 for u in UNITS})
     b.update({'orient:asc': 10, 'orient:desc': 10, 'twin': 5, 'same-numbers-other-flag': 100, 'df:negative-argument': 10, 'history:retimed': 20,
-              'history:phased-time-profile': 20, 'history:smeared-injection': 20, 'history:smeared-cadence-injection': 20})
+              'history:phased-time-profile': 20, 'history:smeared-injection': 20, 'history:smeared-cadence-injection': 20, 'history:copy-axes-edited-in-place': 20})
     return {'buckets': b, 'counters': {'invariant_evals': 100, 'roundtrip_channels': 1000}, 'checks': 500}
 
 
@@ -111,6 +111,13 @@ def build(stg, c, asc=None, fch1=None):
         dfb = c['sr'] / c['P'] / c['L']
         dtb = c['intf'] / dfb
         obs = (c['tchans'] + 0.5) * dtb
+        # a caller who asked for the same backend's parameters before and edited the dictionary it got (a preview with fewer
+        # integrations, dt in ms): the dictionary was the caller's own
+        earlier = stg.params_from_backend(obs_length=obs, sample_rate=c['sr'], num_branches=c['P'], fftlength=c['L'], int_factor=c['intf'])
+        if isinstance(earlier, dict):
+            earlier['tchans'] = 1
+            earlier['dt'] = earlier.get('dt', 1.0) * 1000.0
+            earlier['fchans'] = 3
         return stg.Frame.from_backend_params(fchans=c['fchans'], obs_length=obs, sample_rate=c['sr'],
                                              num_branches=c['P'], fftlength=c['L'], int_factor=c['intf'],
                                              fch1=f1, ascending=asc, seed=c['sub'])
@@ -201,7 +208,12 @@ def run_case(c, R):
                             np.max(np.abs(s.fs - fr.fs[l:r])) <= 4 * np.spacing(fr.fmax),
                             'slice-axis', l=l, r=r)
                 elif op == 4:
-                    fr.copy()
+                    # a copy whose axes are then edited in place by its owner (a later pointing, frequencies relative to the band
+                    # centre for display): the original's axes are its own
+                    cp_ = fr.copy()
+                    cp_.ts += 600.0
+                    cp_.fs -= float(cp_.fs[len(cp_.fs) // 2])
+                    R.bucket('history:copy-axes-edited-in-place')
                 elif op == 5:
                     # the start time is re-assigned (directly, or by a cadence laying its frames back to back): the time GRID stays
                     # i*dt and every derived time follows the new start
